@@ -3,6 +3,7 @@ package main
 import (
 	"fmt"
 	"go/token"
+	"os"
 	"strings"
 
 	"golang.org/x/tools/go/ssa"
@@ -230,7 +231,7 @@ func checkC10(c *Ctx) {
 		for _, f := range t.PkgFuncs(pInput) {
 			allInstrs(f, func(in ssa.Instruction) {
 				if call, ok := in.(*ssa.Call); ok {
-					if g := call.Call.StaticCallee(); g != nil && inSet[g] && g != f {
+					if g := call.Call.StaticCallee(); g != nil && g.Pkg == f.Pkg && g != f {
 						callers[g] = append(callers[g], call)
 					}
 				}
@@ -279,10 +280,21 @@ func checkC10(c *Ctx) {
 		}
 		for _, f := range helpers {
 			for _, cl := range callers[f] {
+				// a call from the construction / teardown of the whole point (InitPt, PutPoint, or a function only they
+				// reach) is outside the per-key protocol: there the maps are replaced or dropped wholesale
+				if pn := cl.Parent().Name(); pn == "InitPt" || pn == "PutPoint" || onlyFrom(cl.Parent(), map[string]bool{"InitPt": true, "PutPoint": true}) {
+					continue
+				}
 				if b, ok := befores[cl.Parent()]; ok {
 					entry[f] |= b[cl]
 				} else {
 					entry[f] |= 1 << uint(c10enc(0, false, false))
+				}
+			}
+			if os.Getenv("PLVERIF_DEBUG") == "c10" {
+				for _, cl := range callers[f] {
+					_, has := befores[cl.Parent()]
+					fmt.Fprintf(os.Stderr, "C10 helper %s called from %s (analysed=%v, teardown=%v) state=%b\n", f.Name(), cl.Parent().Name(), has, onlyFrom(cl.Parent(), map[string]bool{"InitPt": true, "PutPoint": true}), befores[cl.Parent()][cl])
 				}
 			}
 			r.Fn(relName(f))
@@ -359,7 +371,11 @@ func c10Coherence(c *Ctx, f *ssa.Function, fieldC, tagC int64, entry uint16) map
 			return st
 		}
 		flag, dF, dT := c10dec(st)
-		switch cnd := iff.Cond.(type) {
+		cond := iff.Cond
+		if u, isU := cond.(*ssa.UnOp); isU && u.Op == token.NOT {
+			cond, si = u.X, 1-si // `!x`: the arms swap
+		}
+		switch cnd := cond.(type) {
 		case *ssa.BinOp:
 			if isFlagLoad(cnd.X) && (cnd.Op == token.EQL || cnd.Op == token.NEQ) {
 				if v, ok := constInt(cnd.Y); ok {
